@@ -106,6 +106,13 @@ def impl_c10(case, scratch):
                 ctx = Wtp(db_path=ctx.db_path, quiet=True, quiet_output=True)
                 ctxs.append(ctx)
                 outs.append(None)
+            elif k == "visit":
+                # a short-lived second context on the same file: opens, reads, closes properly
+                ctx.db_conn.commit()
+                other = Wtp(db_path=ctx.db_path, quiet=True, quiet_output=True)
+                other.get_page("Visitor", 0)
+                other.close_db_conn()
+                outs.append(None)
         return {"outcome": "ok", "outs": outs}
     finally:
         for c in ctxs[1:]:
@@ -155,6 +162,18 @@ function export.parent(frame)
   return "<<" .. q(p:getTitle()) .. "|" .. dump(p.args) .. ">>"
 end
 function export.title(frame) return "<<" .. q(frame:getTitle()) .. ">>" end
+function export.reenter(frame)
+  local p = frame:getParent()
+  local me = "<<" .. dump(p.args) .. ">>"
+  if p.args[1] == "go" then
+    local how = p.args.how
+    if how == "et" then return me .. frame:expandTemplate{title = "re", args = {p.args.a1, k = p.args.a2}} end
+    if how == "pp" then return me .. frame:preprocess("{{rewrap|" .. p.args.a1 .. "|w=" .. p.args.a2 .. "}}") end
+    if how == "pp1" then return me .. frame:preprocess("{{re|" .. p.args.a1 .. "|k=" .. p.args.a2 .. "}}") end
+    return me .. p:expandTemplate{title = "re", args = {p.args.a1, k = p.args.a2}}
+  end
+  return me
+end
 function export.preprocess(frame) return "<<" .. frame:preprocess(frame.args[1]) .. ">>" end
 function export.expandtemplate(frame)
   local a = {}
@@ -428,6 +447,8 @@ def impl_expandlib(case, scratch):
             return o.get("pfn_ret", {}).get(name)
 
         kw = dict(pre_expand=o.get("pre_expand", False), expand_parserfns=o.get("parserfns", True))
+        if "invoke" in o:
+            kw["expand_invoke"] = bool(o["invoke"])
         if o.get("expand_names") is not None:
             kw["templates_to_expand"] = set(o["expand_names"])
         if o.get("not_expand_names") is not None:
@@ -536,6 +557,9 @@ C08_TEMPLATES = {
     "w1": "{{#invoke:echo|parent}}",
     "w1args": "{{#invoke:echo|main|{{{1|}}}|k={{{k|}}}}}",
     "w2": "({{w1|{{{1|}}}|z={{{z|}}}}})",
+    # a template whose module calls the same template again, with other arguments, while it is still running
+    "re": "{{#invoke:echo|reenter}}",
+    "rewrap": "{{re|{{{1}}}|w={{{w|}}}}}",
     "star": "* item",
 }
 _c08_ctx = None
@@ -591,6 +615,12 @@ def impl_c08(case, scratch):
         got = []
         ex(call, template_fn=lambda n, ht: got.append([n, [[k, ctx._finalize_expand(v)] for k, v in ht.items()]]) and None)
         res["tfn"] = got
+    elif kind == "reenter":
+        a1, a2, how = case["a1"], case["a2"], case["how"]
+        res["lua"] = ex("{{re|go|how=%s|a1=%s|a2=%s}}" % (how, a1, a2))
+        inner = "{{rewrap|%s|w=%s}}" % (a1, a2) if how == "pp" else "{{re|%s|k=%s}}" % (a1, a2)
+        res["outer_alone"] = ex("{{re|go|how=none|a1=%s|a2=%s}}" % (a1, a2)).replace("how=none", "how=" + how)
+        res["direct"] = ex(inner)
     elif kind == "preprocess":
         _c08_n += 1
         name = "frag%dx%d" % (os.getpid(), _c08_n)
